@@ -345,6 +345,28 @@ CHECKS["C14"] = {
     "level_note": "Pruning merges two histories only if the abstract state's complete printed form and the witness sets coincide.",
 }
 
+CHECKS["C15"] = {
+    "level": "model_checking",
+    "technique": "bounded-exhaustive exploration of region/reference operation histories on the real region domain, executed in lock-step on sets of concrete heaps (objects with allocation sites, references, region contents); after every step loads through every reference and every reference query are compared with every heap",
+    "design_ref": "DESIGN.md §2 C15",
+    "jobs": [{"bin": "c15_regions", "deadline": {"quick": 300, "thorough": 3000}}],
+    "rule": ("int regions R1, R2 (copy of R1), reference region RR, references p, q (into R1/R2) and r (into RR), scalars x, y, boolean b1; alphabet "
+             "of 16 core operations (ref_make at two allocation sites into the same region, stores of constants and variables through p and q, "
+             "loads, ref_gep with offset 0 (alias) and 4 (next cell of the same object), assume p==q / p!=q / p!=null, x:=x+1, save / join / "
+             "widening with the saved state) + 17 extended ones (references stored in and loaded from RR, region_copy and accesses to the copy, "
+             "ref_free, assume p==null, select_ref with null, a third allocation site, meet, swap). All histories of depth <=4 core / <=3 "
+             "everything (5 / 4 thorough), from the state after region_init(R1), region_init(RR) and (depth <=3) from top without region_init; "
+             "7 domains (region domain over intervals, zones, constants, signs, sign x constant, flat boolean x intervals, array_adaptive) x "
+             "every region_domain_params tuple of the configuration lists (allocation sites, deallocation, tag analysis, is_dereferenceable, "
+             "skip_unknown_regions). Clauses: a state with a concrete heap is never bottom, also not after a load; scalars satisfy M1/M3; "
+             "at(t) after t:=load(ref,R) contains the value stored in the addressed cell of every heap; is_null_ref true / false holds in "
+             "every heap; a reported allocation-site set contains the site of the object the reference points to."),
+    "assumptions": ["accesses through null or freed references, reads of never-written cells, gep outside an object and more than 4 objects leave the model (the heap is dropped)",
+                    "a reference is used only with the region it was created in or a copy of that region"],
+    "level_text": "Complete enumeration of operation histories up to the stated depths over the stated alphabets, for every listed domain and parameter tuple.",
+    "level_note": "Tags (get_tags) need intrinsics to be set and are not exercised; address order constraints (<, <=) are not modelled.",
+}
+
 CHECKS["C17"] = {
     "level": "model_checking",
     "technique": "exhaustive enumeration of small CFGs; explicit enumeration of all executions under a per-block visit bound; trace-set equality between the original and the transformed real cfg, plus well-formedness",
